@@ -181,10 +181,21 @@ St0 == [bal |-> [a \in Acct |-> 0], total |-> 0,
 
 Init == st = St0 /\ g = GInit(Acct) /\ viol = {} /\ hist = <<>> /\ stuck = FALSE
 
+\* token events of a successful call
+TEv(k, f, t, x) == [k |-> k, f |-> f, t |-> t, x |-> x]
+ExpEvs(o, ok) ==
+  IF ~ok THEN << >> ELSE
+  CASE o.op = "mint" -> << TEv("mint", NoOne, o.to, o.amt) >>
+    [] o.op \in {"transfer", "transfer_from", "forced_transfer"} -> << TEv("transfer", o.from, o.to, o.amt) >>
+    [] o.op = "burn" -> << TEv("burn", o.from, NoOne, o.amt) >>
+    [] o.op = "recover" -> IF st.bal[o.from] > 0 /\ o.from # o.to
+                           THEN << TEv("transfer", o.from, o.to, st.bal[o.from]) >> ELSE << >>
+    [] OTHER -> << >>
+
 Step(o) ==
   LET r  == Exec(st, o)
       ev == [op |-> o, now |-> Now0, res |-> IF r.ok THEN "ok" ELSE "fail",
-             obs |-> Obs(r.st), calls |-> r.calls]
+             obs |-> Obs(r.st), calls |-> r.calls, evs |-> ExpEvs(o, r.ok)]
   IN /\ st' = r.st
      /\ g' = GNext(g, ev)
      /\ viol' = viol \cup {<<m, Key(m, g, ev)>> : m \in Failing(g, ev)}
